@@ -2,6 +2,13 @@
 """Summarise seeded/<id>/: writes seeded/<id>/lead.json (what the lead ran and saw) and seeded/SUMMARY.md."""
 import json, os, re, glob
 NOTES = {
+ "C08-seed2": "missed by the check as it stood (exit 0: all formulas were ordinary cells, none a shared-formula child holding only view text); caught after the `shared` space (shared-formula groups on the edited and on other sheets) was added",
+ "C02-seed2": "the lattice as it stood put its 8 external links in G1..G8, where row-major order and the order of the A1 strings coincide; caught after the layout got 12 links in column G plus links on AB1 and B2 (validator/decoder clause decoder-hyperlinks link-target-of-sibling); C06 (12 links) caught it as it stood",
+ "C06-seed2": "not reachable by C06 (its workbooks are never opened lazily); caught by C11 (edit of a later sheet while an earlier commented sheet stays raw: saved-content-equals-eager)",
+ "C03-seed2": "the generator as it stood never put white space between tags; caught by the new pretty-printed family `enc-indented`",
+ "C05-seed2": "C05 as it stood never moved a style object between workbooks; caught by the new `transfer` space",
+ "C09-seed2": "caught by C09 as it stood (translate clause: a reference leaving the grid followed by another reference) and by C03 (shared-edge family)",
+
  "C11-seed1": "missed by the check as it stood when the seed arrived (exit 0: no operation of the alphabet made a materialised sheet need a NEW numbered dependent part); caught after the edit operation also adds a comment (clause saved-content-equals-eager, the unloaded sheet's comments are replaced)",
  "C01-seed2": "missed by C01 as it stood (exit 0: C01 built workbooks with direct setters only) but caught by C10 (save-emission); C01 catches it since the `built` space (cells placed by move/copy/insert/remove) was added",
  "C16-seed2": "C16 as it stood answered exit 2 (cannot decide: the change adds a lock operation on the shared table without a hook); C16 now still explores and reports violations found at the hooked points (exit 1 through the configuration `2-lazy-clones-one-fully-materialised`), and only refuses to certify ABSENCE of violations; C12 caught it as it stood",
